@@ -194,6 +194,11 @@ func (w *World) registerHTTPIntrinsics() {
 			return nil
 		}
 		path := f("Path")
+		if pv, ok := path.strVal(); ok {
+			if rv, ok := f("RawPath").strVal(); ok {
+				return mkStr((&url.URL{Path: pv, RawPath: rv}).EscapedPath())
+			}
+		}
 		e.requireStub(mkEq(f("RawPath"), mkStr("")), "url.URL.RawPath empty")
 		safe := reStar(reUnion(reRange('a', 'z'), reRange('A', 'Z'), reRange('0', '9'),
 			reLit("/"), reLit("-"), reLit("."), reLit("_"), reLit("~"), reLit("$"), reLit("&"),
